@@ -15,6 +15,11 @@ open Operon Operon.Proto Operon.Gates
 
 structure DSt where
   mem : Membrane := Membrane.new [] 2 true none 0
+  /-- every membrane alive in this case (slot `cur` is stale while `mem` is being worked on) -/
+  slots : List Membrane := []
+  cur : Nat := 0
+  /-- the signatures of the `mem` line (the class's shipped table is a prefix of it) -/
+  base : List Sig := []
   inn : Innate := Innate.new [] none [] 3 0 ⟨0, 0, 0, 0, 0, 0, 0, 0⟩
   now : Nat := 0
 
@@ -174,8 +179,34 @@ def step (st : DSt) (toks : List String) : DSt × String :=
   let (args, table, _, js) := splitEnv toks
   match args with
   | "mem" :: thr :: rate :: adaptive :: sigs =>
-    ({ st with mem := Membrane.new (sigs.map parseSig) (natD thr) (boolOf adaptive)
-                        (if rate = "none" then none else some (natD rate)) windowUs, now := 0 }, "ok")
+    let m := Membrane.new (sigs.map parseSig) (natD thr) (boolOf adaptive)
+                        (if rate = "none" then none else some (natD rate)) windowUs
+    ({ st with mem := m, slots := [m], cur := 0, base := sigs.map parseSig, now := 0 }, "ok")
+  | "new" :: thr :: rate :: adaptive :: sigs =>
+    if st.slots.isEmpty then (st, "bad-op") else
+    let nb := match (toks.dropWhile (· ≠ "@")).drop 1 with
+      | t :: _ => if t.startsWith "nb=" then natD (t.drop 3).toString else 0
+      | [] => 0
+    let m := Membrane.new (st.base.take nb ++ sigs.map parseSig) (natD thr) (boolOf adaptive)
+                        (if rate = "none" then none else some (natD rate)) windowUs
+    let slots := st.slots.set st.cur st.mem ++ [m]
+    ({ st with mem := m, slots := slots, cur := slots.length - 1 }, s!"ok k={slots.length - 1}")
+  | ["use", k] =>
+    let slots := st.slots.set st.cur st.mem
+    match k.toNat? with
+    | some i => match slots[i]? with
+      | some m => ({ st with mem := m, slots := slots, cur := i }, "ok")
+      | none => (st, "bad-op")
+    | none => (st, "bad-op")
+  | ["xfer", k] =>
+    let slots := st.slots.set st.cur st.mem
+    match k.toNat? with
+    | some i => match slots[i]? with
+      | some d =>
+        let m' := st.mem.importAb d.exportAb
+        ({ st with mem := m' }, s!"ok ln={m'.learned.length}")
+      | none => (st, "bad-op")
+    | none => (st, "bad-op")
   | ["filter", c] =>
     let env := mkEnv table true js
     let content := decodeStr c
@@ -241,6 +272,10 @@ def step (st : DSt) (toks : List String) : DSt × String :=
   | ["adaptive", b] => ({ st with mem := st.mem.setAdaptive (boolOf b) }, "ok")
   | ["hook", k] => ({ st with mem := st.mem.setHook (mkHook k) }, "ok")
   | ["addsig", s] => ({ st with mem := st.mem.addSig (parseSig s) }, "ok")
+  | ["setsig", i, s] =>
+    -- `m.signatures[i] = sig`: the public list edited in place (driver-level operation, not part of `MOp`)
+    if st.mem.sigs.isEmpty then (st, "bad-op")
+    else ({ st with mem := { st.mem with sigs := st.mem.sigs.set (natD i % st.mem.sigs.length) (parseSig s) } }, "ok")
   | ["clearaudit"] => ({ st with mem := st.mem.clearAudit }, "ok")
   | ["adv", d] => ({ st with now := st.now + natD d }, "ok")
   | ["export"] => (st, showList (st.mem.learned.map showSig))
